@@ -6,6 +6,7 @@ import (
 	"errors"
 	"fmt"
 	"math/rand"
+	"os"
 	"sort"
 	"strings"
 	"sync"
@@ -52,13 +53,14 @@ type DualPeer struct {
 }
 
 type DualScenario struct {
-	Seed      int64      `json:"seed"`
-	Op        string     `json:"op"` // provide | putvalue | getvalue | findpeer | findprov
-	K         int        `json:"K"`
-	Count     int        `json:"count"`
-	HostAddrs []string   `json:"hostaddrs"` // classes of the node's own addresses
-	Peers     []DualPeer `json:"peers"`     // the scripted peers; all of them are in their half's routing table
-	TargetKnown []string `json:"targetknown,omitempty"` // findpeer: address classes already in the peerstore
+	Seed        int64      `json:"seed"`
+	Op          string     `json:"op"` // provide | putvalue | getvalue | findpeer | findprov
+	K           int        `json:"K"`
+	Count       int        `json:"count"`
+	HostAddrs   []string   `json:"hostaddrs"`             // classes of the node's own addresses
+	Inbound     []DualRef  `json:"inbound,omitempty"`     // op "inbound": ADD_PROVIDER messages sent to both halves' servers, each from a new peer announcing itself with these address classes
+	Peers       []DualPeer `json:"peers"`                 // the scripted peers; all of them are in their half's routing table
+	TargetKnown []string   `json:"targetknown,omitempty"` // findpeer: address classes already in the peerstore
 }
 
 var dualClasses = []string{"public4", "public6", "private4", "ula6", "loopback", "relaypublic", "relayprivate"}
@@ -134,12 +136,71 @@ func dualClassSetB(as [][]byte) []string {
 func runDual(t *testing.T, sc *DualScenario, ch sim.Chooser) (evs []sim.Ev) {
 	dl := runBubble(t, func(t *testing.T) { evs = runDualInBubble(t, sc, ch) })
 	if dl != "" {
+		if os.Getenv("VERIF_DEBUG_DEADLOCK") != "" {
+			fmt.Fprintln(os.Stderr, "DEADLOCK:", dl)
+			for _, g := range sim.Goroutines() {
+				if strings.Contains(g.Describe(), "synctest") || strings.Contains(g.Describe(), "durable") {
+					fmt.Fprintln(os.Stderr, "   ", g.Describe())
+				}
+			}
+		}
 		evs = append(evs, sim.Ev{"e": "Stuck", "what": "deadlock"}, sim.Ev{"e": "End"})
 	}
 	return evs
 }
 
+// runDualInbound: both halves run as servers; remote peers send ADD_PROVIDER messages announcing themselves with
+// address sets of the given classes; what the host's peerstore holds for each of them afterwards is the
+// observation (the WAN half must keep only public addresses, the LAN half no loopback ones).
+func runDualInbound(t *testing.T, sc *DualScenario) []sim.Ev {
+	r := rand.New(rand.NewSource(sc.Seed))
+	tr := &sim.Trace{}
+	self := sim.NewPeerID(r)
+	h := sim.NewFakeHost(self, []ma.Multiaddr{dualAddr("public4", 900)})
+	common := []dht.Option{dht.BucketSize(sc.K), dht.DisableAutoRefresh(), dht.Mode(dht.ModeServer),
+		dht.Datastore(dssync.MutexWrap(ds.NewMapDatastore()))}
+	// (the protocol prefix is given per half: passed for both it would erase the LAN extension)
+	d, err := dual.New(h, dual.DHTOption(common...), dual.WanDHTOption(dht.ProtocolPrefix("/verifdualw")), dual.LanDHTOption(dht.ProtocolPrefix("/verifduall")))
+	if err != nil {
+		t.Fatalf("dual.New: %v", err)
+	}
+	tr.Add("Reset", "op", "inbound", "K", sc.K, "count", 0, "wanrt", 0, "lanrt", 0, "hostaddrs", []string{"public4"},
+		"wanvals", []string{}, "lanvals", []string{}, "offeredprovs", []int{}, "ts", 0)
+	b := make([]byte, 32)
+	r.Read(b)
+	hsh, _ := mh.Encode(b, mh.SHA2_256)
+	stored := []any{}
+	n := 0
+	for i, in := range sc.Inbound {
+		for _, half := range []struct {
+			net   string
+			proto protocol.ID
+		}{{"wan", "/verifdualw/kad/1.0.0"}, {"lan", "/verifduall/kad/1.0.0"}} {
+			remote := sim.NewPeerID(r)
+			mp := &pb.Message_Peer{Id: []byte(remote)}
+			for _, c := range in.Classes {
+				n++
+				mp.Addrs = append(mp.Addrs, dualAddr(c, n).Bytes())
+			}
+			req := &pb.Message{Type: pb.Message_ADD_PROVIDER, Key: hsh, ProviderPeers: []*pb.Message_Peer{mp}}
+			_, _ = h.ServeOnce(remote, dualAddr("public4", 700+n), half.proto, sim.FrameMsg(req))
+			synctest.Wait()
+			stored = append(stored, map[string]any{"p": fmt.Sprintf("%s-in%d", half.net, i+1), "net": half.net,
+				"offered": append([]string{}, in.Classes...), "stored": dualClassSet(h.Peerstore().Addrs(remote))})
+		}
+	}
+	tr.Add("Peerstore", "learned", stored, "twan", []string{}, "tlan", []string{}, "tknown", []string{}, "tstored", []string{})
+	_ = d.Close()
+	_ = h.Peerstore().Close()
+	synctest.Wait()
+	tr.Add("End")
+	return tr.Events
+}
+
 func runDualInBubble(t *testing.T, sc *DualScenario, ch sim.Chooser) []sim.Ev {
+	if sc.Op == "inbound" {
+		return runDualInbound(t, sc)
+	}
 	r := rand.New(rand.NewSource(sc.Seed))
 	tr := &sim.Trace{}
 	var mu sync.Mutex
@@ -418,7 +479,9 @@ func runDualInBubble(t *testing.T, sc *DualScenario, ch sim.Chooser) []sim.Ev {
 		st := dualClassSet(h.Peerstore().Addrs(id))
 		stored = append(stored, map[string]any{"p": label[id], "net": map[byte]string{'w': "wan", 'l': "lan"}[label[id][0]], "offered": append([]string{}, ref.Classes...), "stored": st})
 	}
-	sort.Slice(stored, func(i, j int) bool { return stored[i].(map[string]any)["p"].(string) < stored[j].(map[string]any)["p"].(string) })
+	sort.Slice(stored, func(i, j int) bool {
+		return stored[i].(map[string]any)["p"].(string) < stored[j].(map[string]any)["p"].(string)
+	})
 	// the searched peer: what each half was told about it, what was known before, what is stored now
 	wanOff, lanOff := map[string]bool{}, map[string]bool{}
 	for i := range sc.Peers {
@@ -586,6 +649,23 @@ func TestDual(t *testing.T) {
 			{Net: "lan", Closer: []DualRef{{Classes: []string{"private4"}}, {Classes: []string{"private4"}, Target: true}}}}}, &schedJob{Tree: true, PerTree: perTree})
 		for i := 0; i < nrand; i++ {
 			addJob(genDualScenario(r), &schedJob{Seed: 1 + r.Int63()})
+		}
+		// inbound ADD_PROVIDER to both halves' servers: every address class alone, then random mixtures
+		in := []DualRef{}
+		for _, c := range dualClasses {
+			in = append(in, DualRef{Classes: []string{c}})
+		}
+		addJob(&DualScenario{Seed: 11, Op: "inbound", K: 2, Inbound: in}, &schedJob{Seed: 1})
+		for i := 0; i < 10+nrand/100; i++ {
+			in := []DualRef{}
+			for j := 0; j < 1+r.Intn(4); j++ {
+				ref := DualRef{}
+				for k := 0; k < r.Intn(5); k++ {
+					ref.Classes = append(ref.Classes, dualClasses[r.Intn(len(dualClasses))])
+				}
+				in = append(in, ref)
+			}
+			addJob(&DualScenario{Seed: r.Int63(), Op: "inbound", K: 2, Inbound: in}, &schedJob{Seed: 1})
 		}
 	}
 	results := runChildren(t, e, "TestDualChild", jobs, len(jobs), 12, nil)
